@@ -1,6 +1,6 @@
 //! Running one case under the scheduler: environments, executor, event log.
 
-use crate::handles::{make_channel, BoxFut, H};
+use crate::handles::{make_channel, BoxFut, SharedBox, SharedH, H};
 use crate::locks::{self, LockEnv};
 use crate::prog::{Case, Op};
 use crate::val;
@@ -134,6 +134,8 @@ pub struct Env {
   pub futs: BTreeMap<String, FutSlot>,
   pub handles: BTreeMap<String, Box<dyn H>>,
   pub locks: Option<LockEnv>,
+  /// the setup thread is running the teardown ops (shared handles may be dropped now)
+  pub teardown: bool,
 }
 
 /// The baton discipline (one scheduler thread runs at a time, handoffs are
@@ -228,6 +230,10 @@ impl Env {
         if self.busy(hn) {
           return "invalid:busy".into();
         }
+        // a shared handle is dropped by the setup thread at teardown (when it holds the last reference)
+        if self.handles.get(hn).map_or(false, |h| h.is_shared()) && !self.teardown {
+          return "invalid:shared".into();
+        }
         match self.handles.remove(hn) {
           Some(h) => {
             drop(h);
@@ -306,8 +312,24 @@ impl Env {
     v
   }
 
+  /// `share h` (setup thread, not logged): from now on every thread that names `h` gets a reference to the same
+  /// handle object and calls its `&self` methods; `false` if the type is not `Sync`
+  pub fn share(&mut self, hn: &str) -> bool {
+    let Some(h) = self.handles.remove(hn) else { return false };
+    if h.is_shared() {
+      self.handles.insert(hn.to_string(), h);
+      return true;
+    }
+    if !h.is_sync() || self.busy(hn) {
+      self.handles.insert(hn.to_string(), h);
+      return false;
+    }
+    self.handles.insert(hn.to_string(), Box::new(SharedH(std::sync::Arc::new(SharedBox(h)))));
+    true
+  }
+
   fn absorb(&mut self, other: Env) {
-    let Env { futs, handles, locks } = other;
+    let Env { futs, handles, locks, .. } = other;
     self.futs.extend(futs);
     self.handles.extend(handles);
     if let (Some(mine), Some(theirs)) = (self.locks.as_mut(), locks) {
@@ -321,6 +343,14 @@ impl Env {
 fn run_ops(env: &mut Env, sh: &Arc<Shared>, tid: usize, ops: &[Op]) -> bool {
   let r = catch_unwind(AssertUnwindSafe(|| {
     for op in ops {
+      if op.name() == "share" {
+        // harness-level, no event: see `Env::share`
+        if !env.share(op.arg(1)) {
+          sh.push(Ev::Panic { tid, msg: format!("share-{}-refused-type-is-not-Sync", op.arg(1)) });
+          return;
+        }
+        continue;
+      }
       rt::sched_point();
       sh.push(Ev::Call { tid, op: op.clone() });
       sh.stats[tid].polls.store(0, Ordering::Relaxed);
@@ -402,8 +432,12 @@ pub fn run_case(case: &Case, cfg: rt::Config) -> RunResult {
   let sh = Arc::new(Shared::new());
   // static validation: every pre-existing handle used by at most one thread ≥ 1
   let mut owner: BTreeMap<String, usize> = BTreeMap::new();
+  let shared_names: Vec<String> = case.programs[0].iter().filter(|o| o.name() == "share").map(|o| o.arg(1).to_string()).collect();
   for (t, p) in case.programs.iter().enumerate().skip(1) {
     for n in handle_uses(p) {
+      if shared_names.contains(&n) {
+        continue;
+      }
       if let Some(o) = owner.insert(n.clone(), t) {
         if o != t {
           return RunResult {
@@ -448,6 +482,11 @@ pub fn run_case(case: &Case, cfg: rt::Config) -> RunResult {
           tenv.locks = Some(le.share());
         }
         for n in handle_uses(p) {
+          // shared handle: the setup thread keeps its reference, the thread gets another one
+          if let Some(r) = env.handles.get(&n).and_then(|h| h.share_ref()) {
+            tenv.handles.insert(n, r);
+            continue;
+          }
           if let Some(h) = env.handles.remove(&n) {
             tenv.handles.insert(n, h);
           }
@@ -474,6 +513,7 @@ pub fn run_case(case: &Case, cfg: rt::Config) -> RunResult {
       .iter()
       .map(|n| if env.locks.as_ref().map_or(false, |l| l.is_guard(n)) { Op::new(&["unlock", n]) } else { Op::new(&["drop", n]) })
       .collect();
+    env.teardown = true;
     run_ops(&mut env, &sh, 0, &ops);
     drop(env);
   });
